@@ -47,6 +47,10 @@ for d in sorted(glob.glob('seeded/C*-v*/'), key=lambda s: (s.split('/')[1].split
     if not missed_first and caught_now: first += 1
     if caught_now: now += 1
     status = 'caught at first run' if (caught_now and not missed_first) else ('caught after strengthening' if caught_now else '**not caught**')
+    if m.get('neutralised'):
+        status = 'made harmless by a later repair (its demonstration passes with the change)'
+        if not caught_now:
+            now += 1
     summ = (m.get('summary') or '').replace('|', '/').replace('\n', ' ')
     if len(summ) > 150: summ = summ[:147] + '…'
     srows.append(f'| {sid} | {summ} | {status} | {keys} |')
